@@ -12,6 +12,7 @@ import itertools
 import os
 import random
 import shutil
+import sys
 import tempfile
 
 from hypothesis import strategies as st
@@ -31,7 +32,9 @@ ASSUMPTIONS = [
     "grid/torus are compared up to isomorphism, path/tree/pyramid up to isomorphism plus 'every edge goes from a smaller to a larger vertex'; complete N B up to the numbering of the blocks; t-partite gnp: some partition in t independent blocks of N; shift exactly",
     "torus with a side of length 1: the cycle of length 1 contributes no edge in a simple graph (torus 1 3 is the triangle); with a side 2 the cycle of length 2 is a single edge",
     "saved gml/dot files: vertices are numbered by increasing identifier, each side on its own for bipartite graphs; a file of a directed graph must be marked directed",
-    "sizes: at most 9 vertices per side / 16 vertices for grids and trees; a defect that needs larger graphs is out of reach",
+    "sizes: at most 9 vertices per side / 16 vertices for grids and trees, except `regular` in its dense, unbalanced region (up to 130 left and 6 right vertices); a defect that needs larger graphs is out of reach",
+    "cases with 'chance' (ScriptedChance): the functions random.randint, random.choice and random.sample are replaced, for the time of the build, by harness functions that answer from a private generator and in runs with the lowest / highest legal value (sample: the previous answer for an equal population and k); the property is quantified over 'all outcomes of the random choices made by the samplers', every scripted sequence consists of legal answers and so has positive probability under an honest generator; draws made through other functions (random.random, random.shuffle, networkx's own use of the generator) stay with the global generator seeded from rseed",
+    "which branch of a sampler ran (a free pair picked from the list / restart in `regular`, listing of the missing edges in `addedges`) is observed by pass-through wrappers around random.choice, random.sample and the name cnfgen.graphs.bipartite_random_regular that look at the name of the calling function; arguments, results and the stream of random numbers are untouched, the observation only labels the case",
     "position of `save`: the help texts (cnfgen --help-simple / --help-bipartite / --help-dag, docstring of cnfgen/clitools/graph_args.py) list `save` among the options that 'may follow' the construction or file, 'for reproducibility', storing 'the graph generated', and say nothing about its place among the modifiers: wherever it is written, the saved file must hold the final graph, the one the formula is built from",
     "graphs read from files: the files are written by the harness (vlib/rd_graphs.py writers; gml/dot documents with identifiers 1..N, left side first), at most 7 vertices / 4 per side; file names never contain a newline (the unchanged tree copies the file name into the comment line of a saved kthlist file, which a newline breaks); non-ASCII letters in the comment lines of saved kthlist/dimacs files are ignored by the reference readers; the digraph type has no formula on the command line and is only reached through make_graph_from_spec",
     "target of `save` (case kind 'target'): the file named after `save` is a regular file in a scratch directory or does not exist (no links, devices, directories, read-only files); whatever it held before, after an accepted command it must be byte for byte what the same request (same seed of the global generator) stores under a name that did not exist; the reference is produced through make_graph_from_spec also for the in-process command lines (under the same seed both store the same bytes: observed on the unchanged tree, and checked again by every case); the unchanged tree reads the file of the graph argument completely and closes it before `save` opens its target (obtain_graph: read_graph_from_input, modifiers, then writeGraph(mode 'w')), the documentation says nothing about saving over the input: `<file> ... save <the same file>` is taken as legal and must leave the graph that was in the file (plus the modifiers) in the format asked for; a refused request is not judged on what it leaves in the target",
@@ -182,6 +185,143 @@ def _cleanup(paths):
 
 
 # ---------------------------------------------------------------------------
+# which of the rarely taken branches of the samplers ran (labels only)
+
+class BranchObserver(object):
+    """Pass-through wrappers around random.choice, random.sample and the module-level name
+    cnfgen.graphs.bipartite_random_regular (arguments, results and the stream of random numbers are
+    untouched).  The branch is told from the function the call comes from:
+      regular:fallback-pick   random.choice called by bipartite_random_regular: all the 3*d*d retries for one edge
+                              hit pairs that are joined already and a free pair of stubs was picked from the list
+      regular:fallback-pick-kept  ... and the construction was not started again afterwards: the graph returned contains
+                              the edge that was picked from the list
+      regular:restart         bipartite_random_regular called through its module-level name (by itself): no free
+                              pair was left, the construction started again
+      addedges:listing        random.sample called by add_random_missing_edges itself (its rejection sampler lives
+                              in a nested function): the 10*m draws fell short, the missing edges were listed"""
+
+    def __enter__(self):
+        import cnfgen.graphs as cg
+        self.seen = seen = set()
+        self._cg, self._choice, self._sample = cg, random.choice, random.sample
+        self._regular = getattr(cg, 'bipartite_random_regular', None)
+        choice0, sample0, regular0 = self._choice, self._sample, self._regular
+
+        def choice(seq):
+            if sys._getframe(1).f_code.co_name == 'bipartite_random_regular':
+                seen.add('regular:fallback-pick')
+                seen.add('regular:fallback-pick-kept')
+            return choice0(seq)
+
+        def sample(population, k, *args, **kwargs):
+            if sys._getframe(1).f_code.co_name == 'add_random_missing_edges':
+                seen.add('addedges:listing')
+            return sample0(population, k, *args, **kwargs)
+
+        def regular(*args, **kwargs):
+            seen.add('regular:restart')
+            seen.discard('regular:fallback-pick-kept')
+            return regular0(*args, **kwargs)
+
+        random.choice, random.sample = choice, sample
+        if regular0 is not None:
+            cg.bipartite_random_regular = regular
+        return self
+
+    def __exit__(self, *exc):
+        random.choice, random.sample = self._choice, self._sample
+        if self._regular is not None:
+            self._cg.bipartite_random_regular = self._regular
+        return False
+
+    def labels(self):
+        return sorted(self.seen)
+
+
+class ScriptedChance(object):
+    """The random choices of the samplers as an input of the case (case['chance'] = [key, percent, lengths]).
+
+    While a build runs, random.randint, random.choice and random.sample (the three functions through which the
+    samplers of cnfgen/graphs.py and graph_build.py draw) are answered from a private generator seeded with `key`,
+    which now and then (each call outside a run starts one with probability `percent`/100) enters a RUN of
+    `lengths[j]` calls in which every answer is the lowest (or, for the whole run, the highest) legal one:
+    randint(a, b) gives a (resp. b), choice(seq) gives seq[0] (resp. seq[-1]) and sample(population, k) repeats its
+    previous answer when that one was drawn from an equal population with the same k.  Every sequence
+    of answers is a possible outcome of an honest generator (each value lies in the requested range, a sample has
+    k distinct members of the population), so the promise of the construction must hold; runs make the outcomes in
+    which a rejection sampler keeps hitting what it already has - the ones that lead into the fall-back branches -
+    frequent instead of one in 10^5.  Runs are finite and there are at most MAX_RUNS of them in one build, so every
+    retry loop (and the restart of `regular`, whose dead ends would otherwise follow each other for minutes on dense
+    parameters) goes on with honest draws afterwards.
+    The same key gives the same answers to the same sequence of calls: a specification and its prefixes (same
+    construction, fewer modifiers) see the same outcome of the construction, as they do under a seed."""
+
+    MAX_RUNS = 6        # per build: after the sixth run every answer is an honest draw
+
+    def __init__(self, spec):
+        key, percent, lengths = spec
+        self.rng = random.Random(key)
+        self.percent, self.lengths = percent, list(lengths)
+        self.left, self.high, self.last = 0, False, None
+        self.runs = 0
+
+    def _in_run(self):
+        if self.left > 0:
+            self.left -= 1
+            return True
+        if self.runs < self.MAX_RUNS and self.rng.randrange(100) < self.percent:
+            self.left = self.lengths[self.rng.randrange(len(self.lengths))]
+            self.high = self.rng.randrange(4) == 0
+            self.runs += 1
+        return False
+
+    def __enter__(self):
+        self._saved = (random.randint, random.choice, random.sample)
+
+        def randint(a, b):
+            if a > b:
+                raise ValueError("empty range for randrange() ({}, {}, {})".format(a, b + 1, b + 1 - a))
+            if self._in_run():
+                return b if self.high else a
+            return self.rng.randint(a, b)
+
+        def choice(seq):
+            if not len(seq):
+                raise IndexError('Cannot choose from an empty sequence')
+            if self._in_run():
+                return seq[-1] if self.high else seq[0]
+            return seq[self.rng.randrange(len(seq))]
+
+        def sample(population, k, **kwargs):
+            run = self._in_run()
+            if (run and self.last is not None and not kwargs and self.last[1] == k
+                    and type(self.last[0]) is type(population) and self.last[0] == population):
+                return list(self.last[2])
+            out = self.rng.sample(population, k, **kwargs)
+            self.last = (population, k, list(out))
+            return out
+
+        random.randint, random.choice, random.sample = randint, choice, sample
+        return self
+
+    def __exit__(self, *exc):
+        random.randint, random.choice, random.sample = self._saved
+        return False
+
+
+class _NoChance(object):
+    def __enter__(self):
+        return self
+
+    def __exit__(self, *exc):
+        return False
+
+
+def _chance(spec):
+    return ScriptedChance(spec) if spec else _NoChance()
+
+
+# ---------------------------------------------------------------------------
 # the two ways to obtain the graph of a specification
 
 def _reread(fmt, gtype, path, what, d, rseed):
@@ -196,7 +336,7 @@ def _reread(fmt, gtype, path, what, d, rseed):
     return ['reread-by-tree', 'reread-by-tree/' + fmt]
 
 
-def lib_builder(gtype, rseed, tmp, reread=False):
+def lib_builder(gtype, rseed, tmp, reread=False, chance=None):
     import cnfgen.clitools.msg as msg
     from cnfgen.clitools.graph_args import make_graph_from_spec
 
@@ -206,8 +346,10 @@ def lib_builder(gtype, rseed, tmp, reread=False):
         try:
             random.seed(rseed)
             msg._prefix = ''
+            seen = BranchObserver()
             try:
-                G = make_graph_from_spec(gtype, list(real))
+                with _chance(chance), seen:
+                    G = make_graph_from_spec(gtype, list(real))
             except ValueError as e:
                 raise Rejected(str(e))
             except Exception as e:      # noqa
@@ -218,7 +360,7 @@ def lib_builder(gtype, rseed, tmp, reread=False):
                 d = M.describe(G, gtype)
             except M.Mismatch as e:
                 raise Violation("{}: {}".format(what, e))
-            labels = []
+            labels = seen.labels()
             for fmt, path in files:
                 if fmt is None or _dot_missing(fmt):
                     continue
@@ -253,7 +395,7 @@ def _library_formula(cmd, gtype, d):
     raise KeyError(cmd)
 
 
-def cli_builder(cmd, gtype, rseed, tmp, reread=False):
+def cli_builder(cmd, gtype, rseed, tmp, reread=False, chance=None):
     from cnfgen.clitools.cmdline import CLIError
 
     def build(tokens, tag):
@@ -266,8 +408,10 @@ def cli_builder(cmd, gtype, rseed, tmp, reread=False):
             files = files + [('kthlist', own)]
         try:
             random.seed(rseed)
+            seen = BranchObserver()
             try:
-                F = cli.build('cnfgen', list(cmd) + real)
+                with _chance(chance), seen:
+                    F = cli.build('cnfgen', list(cmd) + real)
             except CLIError as e:
                 raise Rejected(str(e))
             except SystemExit as e:
@@ -281,7 +425,7 @@ def cli_builder(cmd, gtype, rseed, tmp, reread=False):
                 return Obs(None, formula=F, labels=['unobserved'])
             descs = [_read_file(fmt, gtype, p, what) for fmt, p in good]
             d = descs[0][0]
-            labels = ['reader-' + descs[0][1]]
+            labels = ['reader-' + descs[0][1]] + seen.labels()
             if own is None:
                 labels += ['saved', 'saved/{}/{}'.format(gtype, good[0][0])]
             for other, _ in descs[1:]:
@@ -374,6 +518,13 @@ def _chain(gtype, what, base_desc, base_tokens, mods, full, full_msg, build):
     return labels
 
 
+def in_dense_regular_region(L, Rr, d):
+    """`regular L R d` with few right vertices, every left vertex joined to all of them or to all but one, and
+    many more left vertices than right ones: where the retries of the sampler run out while a free pair exists
+    (survey on an instrumented copy of the unchanged tree: once in 10..300 runs, against once in 10^5 elsewhere)"""
+    return 2 <= Rr <= 6 and d >= 2 and d >= Rr - 1 and L >= 6 * Rr
+
+
 def judge(gtype, tokens, build):
     """Outcome for the specification, obtained through build(tokens, tag) -> Obs / Rejected."""
     what = _spec_text(gtype, tokens)
@@ -444,6 +595,10 @@ def judge(gtype, tokens, build):
         raise Violation("{} (generator seeded with rseed): {}".format(_spec_text(gtype, base_tokens), e), signature=sig)
     if J.status == 'gray':
         labels += ['gray', 'gray-accepted']
+    if S.cons == 'regular' and in_dense_regular_region(J.P['L'], J.P['R'], J.P['d']):
+        labels.append('regular-dense-unbalanced')
+        if 'regular:fallback-pick' in labels:
+            labels.append('regular-dense-unbalanced:fallback-pick')
 
     # 3. modifiers: some order of application must explain what came out
     labels += _chain(gtype, what, base.desc, base_tokens, mods, full, full_msg, build)
@@ -455,13 +610,21 @@ def judge(gtype, tokens, build):
     return Outcome(labels=sorted(set(labels)), nontrivial=nontrivial)
 
 
+def _chance_labels(case, out):
+    if case.get('chance'):
+        out.labels = tuple(out.labels) + ('scripted-chance',) + tuple(
+            'scripted-chance/' + l for l in out.labels if l.startswith(('regular:', 'addedges:')) or '/' in l and l.split('/')[0] in M.TYPES)
+    return out
+
+
 def run_spec(case):
     if case.get('kind') == 'file':
         return run_file(case)
     if case.get('kind') == 'target':
         return run_target(case)
     gtype, tokens, rseed = case['gtype'], [str(t) for t in case['tokens']], case['rseed']
-    return judge(gtype, tokens, lib_builder(gtype, rseed, _tmpdir()))
+    out = judge(gtype, tokens, lib_builder(gtype, rseed, _tmpdir(), chance=case.get('chance')))
+    return _chance_labels(case, out)
 
 
 # ---------------------------------------------------------------------------
@@ -920,9 +1083,9 @@ def run_cli(case):
         return run_target(case)
     gtype, tokens, rseed = case['gtype'], [str(t) for t in case['tokens']], case['rseed']
     cmd = [str(t) for t in case['cmd']]
-    out = judge(gtype, tokens, cli_builder(cmd, gtype, rseed, _tmpdir()))
+    out = judge(gtype, tokens, cli_builder(cmd, gtype, rseed, _tmpdir(), chance=case.get('chance')))
     out.labels = tuple(out.labels) + ('cmd-' + cmd[0],)
-    return out
+    return _chance_labels(case, out)
 
 
 # ---------------------------------------------------------------------------
@@ -1077,6 +1240,14 @@ def gen_base(s, gtype):
         elif cons == 'glrd':
             toks = [cons, L, Rr, _bounded(s, 0, r)]
             edges = l * _intval(toks[3], 0)
+        elif cons == 'regular' and s.chance(20):
+            # the dense, unbalanced region (see in_dense_regular_region): R 2..5, d = R-1 or R, L a multiple of R in 6R..66
+            r = 2 + s.below(4)
+            dd = r if (r == 2 or s.chance(15)) else r - 1
+            l = r * (6 + s.below(max(1, 66 // r - 5)))
+            L, Rr, shape = str(l), str(r), (l, r)
+            toks = [cons, L, Rr, str(dd)]
+            edges = l * dd
         elif cons == 'regular':
             good = [d for d in range(0, r + 1) if (l * d) % r == 0]
             d = str(s.pick(good)) if s.chance(65) else _bounded(s, 0, r)
@@ -1192,7 +1363,10 @@ def _decode_spec(pair):
         toks = toks + gen_options(s, gtype, shape, edges, want_save=s.chance(70))
     else:
         toks = toks + gen_options(s, gtype, shape, edges)
-    return {'gtype': gtype, 'tokens': toks, 'rseed': rseed}
+    case = {'gtype': gtype, 'tokens': toks, 'rseed': rseed}
+    if s.below(8) == 0:
+        case['chance'] = _chance_of(s.below(10 ** 6))
+    return case
 
 
 STRAT_SPEC = st.tuples(INTS, SEEDS).map(_decode_spec)
@@ -1219,7 +1393,10 @@ def _decode_cli(pair):
     cmd = s.pick(CMDS[gtype])
     toks, shape, edges = gen_base(s, gtype)
     toks = toks + gen_options(s, gtype, shape, edges, want_save=s.chance(60))
-    return {'gtype': gtype, 'tokens': toks, 'rseed': rseed, 'cmd': cmd}
+    case = {'gtype': gtype, 'tokens': toks, 'rseed': rseed, 'cmd': cmd}
+    if s.below(8) == 0:
+        case['chance'] = _chance_of(s.below(10 ** 6))
+    return case
 
 
 STRAT_CLI = st.tuples(INTS, SEEDS).map(_decode_cli)
@@ -1329,7 +1506,32 @@ SWEEPS = [
     ('simple', 'gnd 8 5 plantclique 4', 300, 9000),
     ('simple', 'gnm 5 4 splitedges 4 addedges 3 plantclique 3', 800, 24000),
     ('simple', 'gnp 2 .5 3 plantclique 3 splitedges 2', 500, 15000),
+    # the last missing edges of an almost complete graph: the 10*m draws of addedges fall short, the missing edges are listed
+    ('simple', 'gnm 6 14 addedges 1', 300, 9000),
+    ('simple', 'gnm 7 19 addedges 2', 300, 9000),
+    ('bipartite', 'glrm 4 4 15 addedges 1', 300, 9000),
+    ('bipartite', 'glrd 5 4 3 addedges 5', 300, 9000),
+    ('bipartite', 'regular 6 3 2 addedges 6', 300, 9000),
 ]
+
+# `regular L R d` in its dense, unbalanced region (in_dense_regular_region): (L, R, d, seeds quick, seeds thorough).
+# Survey on an instrumented scratch copy of the unchanged tree (share of the runs in which the 3*d*d retries for one
+# edge run out while a free pair of stubs exists, so that the pair is picked from the list of the free ones):
+#   30 2 2: 0.4%   48 3 2: 1%   96 3 2: 1.8%   32 4 3: 1%   64 4 3: 3.5%   96 4 3: 6%   128 4 3: 10%   50 5 4: 3%
+#   65 5 4: 5%   48 6 5: 2.5%   14 4 2, 20 4 3, 20 5 4, 30 5 3: 0.03..0.7%;  about 1 in 10^5 on balanced or sparse
+#   parameters (6 3 2, 4 4 3, 8 8 3, 20 8 2: none in 3000 runs).  The restart of the whole construction (no free pair
+#   left) is frequent everywhere (0.2 .. 5 per run for d >= 2).
+DENSE_REGULAR = [
+    (30, 2, 2, 1500, 24000), (40, 2, 2, 800, 12000), (33, 3, 2, 800, 12000), (48, 3, 2, 1000, 15000), (96, 3, 2, 300, 4500),
+    (32, 4, 3, 300, 4500), (64, 4, 3, 400, 6000), (96, 4, 3, 150, 2400), (128, 4, 3, 60, 900), (50, 5, 4, 100, 1500),
+    (65, 5, 4, 60, 900), (48, 6, 5, 30, 450), (30, 5, 3, 300, 4500), (14, 4, 2, 2000, 30000), (20, 4, 3, 500, 7500),
+    (20, 5, 4, 300, 4500), (18, 3, 3, 200, 3000), (24, 4, 4, 100, 1500),
+]
+DENSE_REGULAR_TAILS = [[], [], ['save', 'g.matrix'], [], [], ['addedges', '3'], [], ['save', 'kthlist', 'g.graph'], [], [],
+                       ['plantbiclique', '2', '2', 'save', 'g.matrix'], [], ['addedges', '2', 'save', 'g.kthlist']]
+DENSE_REGULAR_CLI = [(30, 2, 2, 60, 1500), (48, 3, 2, 60, 1500), (64, 4, 3, 60, 1500), (96, 4, 3, 60, 1200), (128, 4, 3, 40, 600),
+                     (50, 5, 4, 30, 600), (14, 4, 2, 60, 3000)]
+DENSE_REGULAR_CLI_TAILS = [[], [], ['save', 'B.matrix'], [], ['save', 'kthlist', 'B.graph'], [], ['addedges', '2']]
 
 
 def enum_sweep(tier):
@@ -1337,6 +1539,77 @@ def enum_sweep(tier):
         toks = text.split()
         for seed in range(nq if tier == 'quick' else nt):
             yield {'gtype': gtype, 'tokens': toks, 'rseed': seed}
+    for L, Rr, d, nq, nt in DENSE_REGULAR:
+        for seed in range(nq if tier == 'quick' else nt):
+            yield {'gtype': 'bipartite', 'rseed': seed,
+                   'tokens': ['regular', str(L), str(Rr), str(d)] + DENSE_REGULAR_TAILS[seed % len(DENSE_REGULAR_TAILS)]}
+    for case in scripted_cases(tier):
+        yield case
+
+
+# ---- the random choices as an input (ScriptedChance): the fall-back branches at ordinary, small parameters
+
+CHANCE_PERCENTS = [2, 5, 10, 25]
+CHANCE_LENGTHS = [[13], [30], [13, 60], [200], [5, 28, 110], [60]]
+SCRIPTED_SPECS = [
+    ('bipartite', 'glrm 4 4 5'), ('bipartite', 'glrm 4 4 6'), ('bipartite', 'glrm 3 3 3'), ('bipartite', 'glrm 3 3 4'),
+    ('bipartite', 'glrm 5 3 15'), ('bipartite', 'glrm 2 6 4'), ('bipartite', 'glrd 5 4 2 addedges 6'),
+    ('bipartite', 'glrd 4 6 6'), ('bipartite', 'glrd 6 3 1 addedges 12'), ('bipartite', 'empty 4 4 addedges 7'),
+    ('bipartite', 'empty 3 3 addedges 9'), ('bipartite', 'complete 3 4 addedges 0'), ('bipartite', 'glrp 4 4 .5 addedges 3'),
+    ('bipartite', 'glrd 4 4 2 plantbiclique 2 2 addedges 3'), ('bipartite', 'regular 6 3 2 addedges 6'),
+    ('bipartite', 'regular 8 4 2 plantbiclique 2 2 save g.matrix'), ('bipartite', 'regular 12 6 3 addedges 4 save kthlist g.graph'),
+    ('bipartite', 'glrm 4 5 6 addedges 14 save g.kthlist'),
+    ('simple', 'gnm 6 5 addedges 5'), ('simple', 'empty 5 addedges 10'), ('simple', 'empty 4 addedges 6'),
+    ('simple', 'gnm 6 7 plantclique 3 addedges 2 splitedges 2'), ('simple', 'gnm 5 4 splitedges 4 addedges 3 plantclique 3'),
+    ('simple', 'gnd 6 3 addedges 4 save g.gml'), ('simple', 'gnp 5 .5 addedges 2 splitedges 1'), ('simple', 'complete 4 splitedges 6'),
+]
+SCRIPTED_CLI_SPECS = ['regular 6 3 2', 'regular 8 4 2 save B.matrix', 'regular 14 4 2 save B.matrix', 'regular 9 6 2', 'regular 8 8 3 save kthlist B.graph',
+                      'regular 10 5 3 addedges 4', 'regular 12 4 1', 'regular 4 4 4', 'glrm 4 4 5 addedges 5', 'glrd 5 4 2 addedges 6 save B.matrix',
+                      'empty 3 3 addedges 9', 'glrd 4 4 2 plantbiclique 2 2 addedges 3']
+
+
+def scripted_regular_points():
+    """every `regular L R d` with R 1..8, d 1..R, L in 1..16 such that R divides L*d and L*d <= 60"""
+    for Rr in range(1, 9):
+        for d in range(1, Rr + 1):
+            for L in range(1, 17):
+                if (L * d) % Rr == 0 and L * d <= 60:
+                    yield L, Rr, d
+
+
+def _chance_of(j):
+    return [1 + 7 * j, CHANCE_PERCENTS[j % len(CHANCE_PERCENTS)], CHANCE_LENGTHS[(j // 2) % len(CHANCE_LENGTHS)]]
+
+
+def scripted_cases(tier):
+    reps, nspec = (10, 150) if tier == 'quick' else (150, 3000)
+    j = 0
+    for L, Rr, d in scripted_regular_points():
+        for _ in range(reps):
+            j += 1
+            yield {'gtype': 'bipartite', 'rseed': j, 'chance': _chance_of(j),
+                   'tokens': ['regular', str(L), str(Rr), str(d)] + (['save', 'g.matrix'] if j % 11 == 0 else [])}
+    for gtype, text in SCRIPTED_SPECS:
+        for _ in range(nspec):
+            j += 1
+            yield {'gtype': gtype, 'rseed': j, 'chance': _chance_of(j), 'tokens': text.split()}
+
+
+def scripted_cli_cases(tier):
+    n = 14 if tier == 'quick' else 400
+    j = 0
+    for text in SCRIPTED_CLI_SPECS:
+        for _ in range(n):
+            j += 1
+            yield {'gtype': 'bipartite', 'rseed': j, 'chance': _chance_of(j), 'cmd': FILE_CMDS['bipartite'][(j // 5) % 4],
+                   'tokens': text.split()}
+
+
+def dense_regular_cli_cases(tier):
+    for L, Rr, d, nq, nt in DENSE_REGULAR_CLI:
+        for seed in range(nq if tier == 'quick' else nt):
+            yield {'gtype': 'bipartite', 'rseed': seed, 'cmd': FILE_CMDS['bipartite'][(seed // 7) % 4],
+                   'tokens': ['regular', str(L), str(Rr), str(d)] + DENSE_REGULAR_CLI_TAILS[seed % len(DENSE_REGULAR_CLI_TAILS)]}
 
 
 # ---- graph arguments read from files written by the harness, with modifiers and `save`
@@ -1615,7 +1888,7 @@ def enum_files_spec(tier):
 
 
 def enum_files_cli(tier):
-    return itertools.chain(file_cases(tier, 'cli'), target_cases(tier, 'cli'))
+    return itertools.chain(file_cases(tier, 'cli'), target_cases(tier, 'cli'), dense_regular_cli_cases(tier), scripted_cli_cases(tier))
 
 
 _FILE_LABELS = (['file/{}/{}'.format(t, f) for t in M.TYPES for f in M.FORMATS[t]]
@@ -1658,8 +1931,9 @@ SUBCHECKS = [
                                              't-partite', 'multipartite', 'p=0', 'p=1', 'offset=R', 'arity', 'no-dimension',
                                              'gnd-N=d', 'gnd-N=d+1']),
     SubCheck('options', run_spec, strategy=strat_spec, enumerate_cases=enum_files_spec, quick=4000, thorough=480000,
-             rule="(a) enumerated: graph arguments READ FROM A FILE written by the harness, for every graph type (simple, digraph, dag, bipartite) x every input format of the type (kthlist, gml, dot, dimacs / matrix; harness-side writers, several layouts) x every `save` format of the type, 6 (thorough: 170) rounds in which the other dimensions cycle: file names with blanks, single and double quotes, several / leading / trailing dots, the extension of another format, non-ASCII letters, punctuation, a directory whose name ends like an extension; `<file>` (format from the extension) and `<format> <file>` (no, unknown or misleading extension); every subset of the modifiers the type allows, in the documented order or another, with numbers that fit the graph of the file (6%: one too many); `save <out.ext>` and `save <format> <out>` (output names with blanks, non-ASCII letters, the extension of the input format) written before, between and after the modifiers. Oracle: the file alone gives exactly the graph the harness wrote; wherever `save` stands, the saved file -- read by the harness's reference readers and given back to the tree as a graph argument -- is exactly the graph returned, and that graph is the file's graph plus the step relations of the modifiers (addedges k: k new edges, old ones and vertices kept; splitedges k: k vertices and k edges more, each new vertex subdivides one old edge; plantclique/plantbiclique: old edges kept, the new ones complete a clique of the requested size), refusal exactly when a number does not fit; non-trivial: file graph with an edge and >= 3 vertices. (a') enumerated, THE STATE OF THE `save` TARGET BEFORE THE COMMAND: every graph type x every `save` format of the type x the histories {target absent; empty file; an earlier, larger graph saved there by the tree in the same format / in another format; an earlier smaller one; 3000-8193 bytes / 1-16 bytes of junk (ASCII lines that look like the format, non-ASCII UTF-8 text, bytes that are not UTF-8); a larger graph file written by the harness (same or other format, any layout, comment lines in front); the same command twice under the same seed; a random construction three times under three seeds; another input file of the harness given as graph argument; the tree's own file read back as graph argument and saved over, twice}, plus every (format read, format saved) pair with the target being THE FILE OF THE GRAPH ARGUMENT itself (`g.kthlist save g.kthlist`, `kthlist g.graph save gml g.graph`; harness files padded with comments / attributes so that the text stored is shorter than the text read; saved over a second time when the format stays), 1 (thorough: 40) rounds, constructions from a list of large (7-15 vertices) and small (1-5 vertices) ones, up to two modifiers in the documented order, both forms of `save` and of the file argument, odd target names. Oracle after EVERY command of the history: the graph in use is the construction's structure / the file's graph plus the step relations (same specification without `save` under the same seed); the whole target, read by the harness's readers, is exactly that graph, nothing but blanks follows the closing bracket / brace of a gml / dot file, the bytes equal what the same request stores under a new name, and the file is accepted back as a graph argument; labelled longer / shorter / equal from the actual lengths; non-trivial: a command that found a non-empty target. (b) generated (1 case in 12 is a random history of (a')): construction with boundary arguments followed by any subset of the options valid for the type (plantclique / plantbiclique / addedges / splitedges with arguments inside, at and just outside what the graph allows; save in every format, explicit or by extension, unknown extension, missing file) in any order, plus foreign constructions/options, wrong arities, repeated options, odd number spellings; oracle: chain of step relations against the same specification without the later modifiers under the same seed, saved file read by the harness's readers equals the returned graph; non-trivial: accepted random construction or a modifier with a non-zero argument",
-             required_labels=_CONS_LABELS + _SAVE_LABELS + ['opt-plantclique', 'opt-plantbiclique', 'opt-addedges', 'opt-splitedges',
+             rule="(a) enumerated: graph arguments READ FROM A FILE written by the harness, for every graph type (simple, digraph, dag, bipartite) x every input format of the type (kthlist, gml, dot, dimacs / matrix; harness-side writers, several layouts) x every `save` format of the type, 6 (thorough: 170) rounds in which the other dimensions cycle: file names with blanks, single and double quotes, several / leading / trailing dots, the extension of another format, non-ASCII letters, punctuation, a directory whose name ends like an extension; `<file>` (format from the extension) and `<format> <file>` (no, unknown or misleading extension); every subset of the modifiers the type allows, in the documented order or another, with numbers that fit the graph of the file (6%: one too many); `save <out.ext>` and `save <format> <out>` (output names with blanks, non-ASCII letters, the extension of the input format) written before, between and after the modifiers. Oracle: the file alone gives exactly the graph the harness wrote; wherever `save` stands, the saved file -- read by the harness's reference readers and given back to the tree as a graph argument -- is exactly the graph returned, and that graph is the file's graph plus the step relations of the modifiers (addedges k: k new edges, old ones and vertices kept; splitedges k: k vertices and k edges more, each new vertex subdivides one old edge; plantclique/plantbiclique: old edges kept, the new ones complete a clique of the requested size), refusal exactly when a number does not fit; non-trivial: file graph with an edge and >= 3 vertices. (a') enumerated, THE STATE OF THE `save` TARGET BEFORE THE COMMAND: every graph type x every `save` format of the type x the histories {target absent; empty file; an earlier, larger graph saved there by the tree in the same format / in another format; an earlier smaller one; 3000-8193 bytes / 1-16 bytes of junk (ASCII lines that look like the format, non-ASCII UTF-8 text, bytes that are not UTF-8); a larger graph file written by the harness (same or other format, any layout, comment lines in front); the same command twice under the same seed; a random construction three times under three seeds; another input file of the harness given as graph argument; the tree's own file read back as graph argument and saved over, twice}, plus every (format read, format saved) pair with the target being THE FILE OF THE GRAPH ARGUMENT itself (`g.kthlist save g.kthlist`, `kthlist g.graph save gml g.graph`; harness files padded with comments / attributes so that the text stored is shorter than the text read; saved over a second time when the format stays), 1 (thorough: 40) rounds, constructions from a list of large (7-15 vertices) and small (1-5 vertices) ones, up to two modifiers in the documented order, both forms of `save` and of the file argument, odd target names. Oracle after EVERY command of the history: the graph in use is the construction's structure / the file's graph plus the step relations (same specification without `save` under the same seed); the whole target, read by the harness's readers, is exactly that graph, nothing but blanks follows the closing bracket / brace of a gml / dot file, the bytes equal what the same request stores under a new name, and the file is accepted back as a graph argument; labelled longer / shorter / equal from the actual lengths; non-trivial: a command that found a non-empty target. (b) generated (1 case in 12 is a random history of (a')): construction with boundary arguments followed by any subset of the options valid for the type (plantclique / plantbiclique / addedges / splitedges with arguments inside, at and just outside what the graph allows; save in every format, explicit or by extension, unknown extension, missing file) in any order, plus foreign constructions/options, wrong arities, repeated options, odd number spellings; oracle: chain of step relations against the same specification without the later modifiers under the same seed, saved file read by the harness's readers equals the returned graph; non-trivial: accepted random construction or a modifier with a non-zero argument; one `regular` case in five is drawn from the dense, unbalanced region of sub-check `sweep` (R 2..5, d = R-1 or R, L a multiple of R in 6R..66); one case in 8 runs with the random choices scripted (ScriptedChance, see `sweep` (c))",
+             required_labels=_CONS_LABELS + _SAVE_LABELS + ['regular-dense-unbalanced', 'regular:restart', 'addedges:listing', 'scripted-chance',
+                                                           'scripted-chance/addedges:listing', 'opt-plantclique', 'opt-plantbiclique', 'opt-addedges', 'opt-splitedges',
                                                            'opt-save', 'saved', 'options>=2', 'options-reordered', 'modifier-nonzero',
                                                            'just-outside-rejected', 'at-limit-accepted', 'dense-path', 'sparse-path',
                                                            'save-unknown-format', 'gray-accepted', 'foreign-construction',
@@ -1668,11 +1942,23 @@ SUBCHECKS = [
                                                            'plantclique:just-outside', 'plantbiclique:just-outside'] + _FILE_LABELS
              + _TARGET_LABELS),
     SubCheck('sweep', run_spec, enumerate_cases=enum_sweep, quick=0, thorough=0,
-             rule="fixed small specifications of the samplers with retry loops and fall-backs (regular, glrm at the sparse/dense switch, gnd, addedges up to the complete graph, modifier chains) under every seed 0..N-1 (N between 100 and 12000, thorough up to 180000); same oracle; non-trivial: every accepted case",
-             required_labels=['bipartite/regular', 'bipartite/glrm', 'simple/gnd', 'opt-addedges', 'dense-path', 'sparse-path']),
+             rule="(a) fixed small specifications of the samplers with retry loops and fall-backs (regular, glrm at the sparse/dense switch, gnd, addedges up to the complete graph and for the last 1..6 missing edges of an almost complete simple / bipartite graph, modifier chains) under every seed 0..N-1 (N between 100 and 12000, thorough up to 180000). "
+                  "(b) THE RARE BRANCHES OF `regular L R d`: the dense, unbalanced region found by a survey on an instrumented copy of the unchanged tree (few right vertices, d = R-1 or R, L a large multiple: the 3*d*d retries for one edge run out while a free pair of stubs exists once in 10..300 runs, against once in 10^5 on balanced parameters): (L,R,d) in {(30,2,2), (40,2,2), (33,3,2), (48,3,2), (96,3,2), (32,4,3), (64,4,3), (96,4,3), (128,4,3), (50,5,4), (65,5,4), (48,6,5), (18,3,3), (24,4,4)} and, next to the region, {(14,4,2), (20,4,3), (20,5,4), (30,5,3)}, under every seed 0..N-1 (N = 30..2000 by cost, 8900 cases in all; thorough 15 times as many), 5 cases in 13 followed by `save g.matrix`, `save kthlist g.graph`, `addedges 2|3 [save g.kthlist]` or `plantbiclique 2 2 save g.matrix`. "
+                  "Which branch ran is observed from outside by pass-through wrappers (random.choice called by bipartite_random_regular = a free pair picked from the list; its module-level name called again = restart; random.sample called by add_random_missing_edges itself = listing of the missing edges) and only labels the case: about 65 picks from the list, 3400 restarts, 600 listings per quick run. "
+                  "(c) THE RANDOM CHOICES AS AN INPUT (case['chance'] = [key, percent, run lengths], class ScriptedChance): random.randint / choice / sample are answered from a private generator that now and then (2, 5, 10 or 25% of the calls) starts a run (at most 6 per build) of 5..200 calls answered with the lowest (one run in four: the highest) legal value, sample repeating its previous answer - every answer is legal, so every such sequence is a possible outcome of an honest generator, and the outcomes in which a rejection sampler keeps hitting what it has already become frequent at ordinary small parameters: every `regular L R d` with R 1..8, d 1..R, L 1..16, R | L*d, L*d <= 60 (197 triples x 10 keys, thorough 150; one in 11 with `save g.matrix`), and 26 specifications of glrm (both sides of the switch, m = L*R), glrd, glrp, empty/complete + addedges up to the complete graph, gnm/gnd/gnp + addedges/plantclique/splitedges chains, regular + addedges/plantbiclique + save (150 keys each, thorough 3000): about 650 picks from the list of free pairs whose edge is in the graph returned ('regular:fallback-pick-kept'), 400 restarts, 700 listings of the missing edges per quick run. "
+                  "oracle unchanged: every left vertex has degree d, every right vertex degree L*d/R, no repeated edge (edges are a set of pairs within the sides), the saved file read by the harness is the graph returned, modifiers explained by the step relations under the same seed; non-trivial: every accepted case",
+             required_labels=['bipartite/regular', 'bipartite/glrm', 'simple/gnd', 'opt-addedges', 'dense-path', 'sparse-path',
+                              'regular-dense-unbalanced', 'regular:fallback-pick', 'regular-dense-unbalanced:fallback-pick',
+                              'regular:restart', 'addedges:listing', 'saved/bipartite/matrix', 'saved/bipartite/kthlist',
+                              'scripted-chance', 'scripted-chance/regular:fallback-pick', 'scripted-chance/regular:fallback-pick-kept',
+                              'scripted-chance/regular:restart', 'scripted-chance/addedges:listing', 'scripted-chance/bipartite/regular',
+                              'scripted-chance/bipartite/glrm', 'scripted-chance/bipartite/glrd', 'scripted-chance/simple/gnm',
+                              'scripted-chance/simple/gnd']),
     SubCheck('cli', run_cli, strategy=strat_cli, enumerate_cases=enum_files_cli, quick=320, thorough=24000,
-             rule="(a) enumerated: the graph arguments read from harness-written files of sub-check `options` (simple, bipartite, dag x every input format x every `save` format, 2 (thorough: 51) rounds, at most two modifiers, odd file names, both forms of the argument and of `save`, `save` before / between / after the modifiers) after `cnfgen kcolor k | domset d | php [--functional] [--onto] | peb`, in-process; oracle: as there, the graphs being the ones found in the saved files, and the formula equals the library formula on the saved graph, the saved file given back as a graph argument is that graph. (a') enumerated: the histories of the `save` target of sub-check `options` (simple, bipartite, dag x every `save` format x {absent, earlier larger graph in the same / another format, long junk, same command twice}, all histories in the thorough tier; target = file of the graph argument for every format kept and a third of the format changes), the last command -- in half of the cases every command -- going through `cnfgen <sub-command>` in-process; same oracle, the graph being the one found in the target, plus: the formula equals the library formula on that graph. (b) generated (1 case in 8 is a random history of (a')): the same specifications after `cnfgen kcolor k | domset d | php [--functional] [--onto] | peb`, run in-process; the graph is the one found in the file written by `save` (the harness appends `save kthlist <file>` when the case has none); oracle: CLIError exactly when the model says refusal, same structure predicates and step relations on the saved graphs, and the clauses and variable names of the formula equal the library formula built on the saved graph; non-trivial as above",
+             rule="(a) enumerated: the graph arguments read from harness-written files of sub-check `options` (simple, bipartite, dag x every input format x every `save` format, 2 (thorough: 51) rounds, at most two modifiers, odd file names, both forms of the argument and of `save`, `save` before / between / after the modifiers) after `cnfgen kcolor k | domset d | php [--functional] [--onto] | peb`, in-process; oracle: as there, the graphs being the ones found in the saved files, and the formula equals the library formula on the saved graph, the saved file given back as a graph argument is that graph. (a') enumerated: the histories of the `save` target of sub-check `options` (simple, bipartite, dag x every `save` format x {absent, earlier larger graph in the same / another format, long junk, same command twice}, all histories in the thorough tier; target = file of the graph argument for every format kept and a third of the format changes), the last command -- in half of the cases every command -- going through `cnfgen <sub-command>` in-process; same oracle, the graph being the one found in the target, plus: the formula equals the library formula on that graph. (b) generated (1 case in 8 is a random history of (a')): the same specifications after `cnfgen kcolor k | domset d | php [--functional] [--onto] | peb`, run in-process; the graph is the one found in the file written by `save` (the harness appends `save kthlist <file>` when the case has none); oracle: CLIError exactly when the model says refusal, same structure predicates and step relations on the saved graphs, and the clauses and variable names of the formula equal the library formula built on the saved graph; non-trivial as above. (c) enumerated, the rare branches of `regular`: `cnfgen php [--functional] [--onto] regular L R d` with (L,R,d) in {(30,2,2), (48,3,2), (64,4,3), (96,4,3), (128,4,3), (50,5,4), (14,4,2)} (the dense, unbalanced region of sub-check `sweep`) under every seed 0..N-1 (N = 30..60, 370 cases; thorough 600..3000 each), 3 in 7 followed by `save B.matrix`, `save kthlist B.graph` or `addedges 2`; same oracle (degrees on both sides, saved file = graph in use, formula = library formula on the saved graph); the branch taken is observed as in `sweep` (about 8 picks from the list of free pairs per quick run). (d) enumerated, the random choices as an input (ScriptedChance, see `sweep` (c)): `cnfgen php [--functional] [--onto]` + 12 specifications (regular 6 3 2 | 8 4 2 | 14 4 2 | 9 6 2 | 8 8 3 | 10 5 3 | 12 4 1 | 4 4 4 with and without save / addedges, glrm / glrd / empty + addedges, glrd + plantbiclique + addedges) x 14 keys (thorough 400): about 40 kept picks and 20 listings per quick run; one generated case in 8 of (b) also runs under a scripted chance",
              required_labels=['cmd-kcolor', 'cmd-php', 'cmd-peb', 'cmd-domset', 'saved', 'rejected', 'modifier-nonzero',
+                              'regular-dense-unbalanced', 'regular:fallback-pick', 'regular:restart', 'addedges:listing',
+                              'scripted-chance', 'scripted-chance/regular:fallback-pick-kept', 'scripted-chance/addedges:listing',
                               'opt-plantclique', 'opt-plantbiclique', 'opt-addedges', 'opt-splitedges'] + _FILE_LABELS_CLI
              + _TARGET_LABELS_CLI),
 ]
